@@ -356,7 +356,14 @@ func emitHTML(id string, gs []*stack.Goroutine, mode string) {
 	if errs == "" {
 		errs = "-"
 	}
-	emit("html", id, mode, hexs([]byte(runtime.Version())), values, ats, skel, scheme, complete, errs, det)
+	// the dynamic region of the document: <div id="content"> ... </div> (byte-exact model: Model/HtmlDoc.v)
+	region := "-"
+	if i := bytes.Index(doc, []byte(`<div id="content">`)); i >= 0 {
+		if j := bytes.Index(doc[i:], []byte("</div>\n<h2>Metadata</h2>")); j >= 0 {
+			region = hexs(doc[i : i+j+len("</div>")])
+		}
+	}
+	emit("html", id, mode, hexs([]byte(runtime.Version())), values, ats, skel, scheme, complete, errs, det, region)
 }
 
 func opHTML(r *rand.Rand, n int, tier string) {
